@@ -190,6 +190,17 @@ ADDED10 = {
     "C19": "C19.a: tuple-prefix tests and a filter delegated to the registry accessor (unescaped regular expression); C19.c: a class-level lookup filled by __init__.",
     "C20": "C20.g: the declared kind is accepted on every path; C20.e: InvalidRelativePath by `is None`, data-type objects looked up in the table.",
 }
+ADDED11 = {
+    "C03": "C03.a: a plain ufunc with out= writes into a target built as a masked array (a copy of an input as it came drops the other operands' masks when that input is a plain array).",
+    "C05": "C05.c: the list handed to validate_array_shapes is the inputs as first built (provenance on the control-flow graph: no filter or rebuilding call on the way).",
+    "C06": "C06.e: out= targets as in C03.a.",
+    "C08": "C08.m decides the clean-up of coinciding control points by evaluating it on symbolic points for the four coincidence situations.",
+    "C11": "C11.a: without tracking=True every production of a nonterminal whose line is read stores the line of its first token.",
+    "C13": "C13.e / C14.j accept a handler that returns a non-zero status which every caller hands to sys.exit.",
+    "C01": "C01.f accepts an early return under a flag that provably means 'every command finished'.",
+}
+for _k, _v in ADDED11.items():
+    CLAIMS[_k]["text"] += " " + _v
 for _k, _v in ADDED10.items():
     CLAIMS[_k]["text"] += " " + _v
 for _k, _v in ADDED9.items():
